@@ -341,6 +341,44 @@ def _window_aligned(prog):
     return False
 
 
+def check_emptyfree(ctx, prog):
+    """a container that releases its storage when its element count reaches zero tests the count AFTER the removal:
+    a `count == 0 -> free` test that can only run before the decrement of that count never sees the emptied state"""
+    import cfg as _cfg
+    n = 0
+    for fn in prog.all_functions():
+        decs = {}
+        for b, i, e in fn.elements():
+            for x in walk(e):
+                if x.get("k") == "un" and "--" in x.get("op", "") and strip(x["e"]).get("k") in ("mem", "idx"):
+                    decs.setdefault(canon(x["e"]), []).append(b.id)
+                if x.get("k") == "asg" and x.get("op") == "-=" and strip(x["a"]).get("k") == "mem":
+                    decs.setdefault(canon(x["a"]), []).append(b.id)
+        if not decs:
+            continue
+        for bid, blk in fn.blocks.items():
+            c = strip_pre(blk.cond) if blk.cond is not None else None
+            if not (isinstance(c, dict) and c.get("k") == "bin" and c.get("op") in ("==", "<=") and const_value(c["b"]) == 0
+                    and canon(c["a"]) in decs and len(blk.succs) == 2 and blk.succs[0] is not None):
+                continue
+            frees = [cc for e in fn.blocks[blk.succs[0]].elems for cc in walk(e)
+                     if cc.get("k") == "call" and (cc.get("fn") or "") in ("free", "NCI_Free_fn", "NCI_Free")]
+            if not frees:
+                continue
+            n += 1
+            L = canon(c["a"])
+            inst = "%s:%s" % (fn.name, L)
+            late = [d for d in decs[L] if d != bid and _cfg.can_reach(fn, bid, d) and not _cfg.can_reach(fn, d, bid)]
+            if late:
+                ctx.fail("R3.emptyfree", fn.name, L, "`%s == 0` guards the release of the container's storage but is evaluated before "
+                         "`%s` is decremented: when the last element is removed the test still sees 1, the storage is kept "
+                         "and is not released at close either (empty containers are skipped there)" % (L, L), fn=fn,
+                         line=blk.tl or fn.line, inst=inst)
+            else:
+                ctx.ok("R3.emptyfree", inst, "the emptiness test follows the decrement")
+    ctx.require(n >= 4, "R3.emptyfree: only %d release-on-empty tests found" % n)
+
+
 def check_leaks(ctx, prog):
     from rules import r3leak
     from callgraph import CallGraph
@@ -390,4 +428,6 @@ def run(ctx):
     check_uses(ctx, prog)
     check_slot(ctx, prog)
     check_close(ctx, prog)
+    ctx.rule("R3.emptyfree", "release-on-empty tests observe the count after the removal")
+    check_emptyfree(ctx, prog)
     check_leaks(ctx, prog)
